@@ -887,6 +887,14 @@ def run_impl(d):
         lhs = np.array([[e_post[k * N + n, n] + logN(y[n:n + 1], emu[k, Dx:], eSig[k, Dx:, Dx:])[0] for n in range(N)] for k in range(R)])
         rhs = np.array([logN(z, emu[k], eSig[k]) for k in range(R)])
         chk(fails, ["C09"], "p(x|y) p(y) = p(y|x) p(x)", site + "affine_conditional_transformation", lhs, rhs)
+        # Bayes' rule on the implementation's own operands: p(y|x) as the conditional object itself evaluates it, p(x) as given
+        cx = (c.condition_on_x_u(jarr(d["xs"]), **ckw) if nn else c.condition_on_x(jarr(d["xs"])))
+        e_c = np.asarray(cx.evaluate_ln(jarr(d["ys"])))          # [Rc*N, N]
+        e_p = np.asarray(p.evaluate_ln(jarr(d["xs"])))            # [Rx, N]
+        Rx_ = d["p"]["R"]
+        rhs_own = np.array([[e_c[(k // Rx_) * N + n, n] + e_p[k % Rx_, n] for n in range(N)] for k in range(R)])
+        chk(fails, ["C09"], "p(x|y) p(y) = p(y|x) p(x), p(y|x) and p(x) evaluated by the operands themselves",
+            site + "affine_conditional_transformation", lhs, rhs_own)
         cond_consistency(fails, o, site + "affine_conditional_transformation")
         # round trips, component by component: transforming back with p(y) recovers p(y|x) and p(x)
         p_y = c.affine_marginal_transformation(p, **ckw)
